@@ -5,7 +5,7 @@ import re
 from vt import rx
 from vt.grammar import shipped_dialects, PARSER, LEXER
 from vt.model import walk_no_nested, norm, dotted_name
-from vt.shapes import Sym, Tup, Lst, Cat, Const, Idx, Slc, Cond, DictT, NONE, Opaque
+from vt.shapes import Sym, Tup, Lst, Cat, Const, Idx, Slc, Cond, DictT, NONE, Opaque, transforms_in
 from vt.runner import where, AnalysisError
 from rules import common
 from rules.C11 import lexer_model
@@ -101,9 +101,9 @@ def present_syms(t):
     return []
 
 
-def r1_nothing_dropped(chk, only_lhs=None):
+def r1_nothing_dropped(chk, only_lhs=None, rule='C02.R1'):
     chk.unit(PARSER)
-    chk.doc('C02.R1', 'per production alternative (three dialects): every value-carrying right-hand-side symbol is '
+    chk.doc(rule, 'per production alternative (three dialects): every value-carrying right-hand-side symbol is '
                       'used exactly once in the value, in source order (audited discards excepted); the set of '
                       'nonterminals that never yield a value is exactly the audited set; a truthiness test never '
                       'decides over a value that can be the number 0 or an empty string')
@@ -115,7 +115,7 @@ def r1_nothing_dropped(chk, only_lhs=None):
         silent = set(n for n in gs.nonterminals if gs.av[n].always_none())
         for n in sorted(silent - set(SILENT)):
             fn = gs.by_lhs[n][0].fn
-            chk.ob('C02.R1', '%s/silent-nonterminal %s' % (dname, n), False, '%s:%s' % (PARSER, fn.lineno),
+            chk.ob(rule, '%s/silent-nonterminal %s' % (dname, n), False, '%s:%s' % (PARSER, fn.lineno),
                    'nonterminal %s never yields a value although it is not one of the audited unmodelled constructs: '
                    'whatever it matched is lost from the tree' % n)
         for n in sorted(set(SILENT) & gs.nonterminals - silent):
@@ -147,16 +147,20 @@ def r1_nothing_dropped(chk, only_lhs=None):
             vals = [i for i in used if carries_value(gs, p.rhs[i - 1])]
             if vals != sorted(vals) and (p.lhs, p.rhs) not in REORDER_OK:
                 problems.append('parts are listed out of source order: %s' % ['p[%d]' % i for i in vals])
-            chk.ob('C02.R1', tag, not problems, '%s:%s' % (PARSER, p.fn.lineno),
+            tr = transforms_in(term)
+            if tr:
+                problems.append('a parse value is rewritten by str.%s(): the tree no longer shows what was written' %
+                                '/'.join(sorted(set(tr))))
+            chk.ob(rule, tag, not problems, '%s:%s' % (PARSER, p.fn.lineno),
                    '; '.join(problems) + ' -> value %s' % repr(term)[:100] if problems else '')
             # truthiness tests over lossy values
             for tv, av, node in gs.tests[p]:
                 lossy = av.lossy_falsy()
                 if lossy and not isinstance(tv, Const):
-                    chk.ob('C02.R1', tag + '/truthiness(%r)' % tv, False, '%s:%s' % (PARSER, p.fn.lineno),
+                    chk.ob(rule, tag + '/truthiness(%r)' % tv, False, '%s:%s' % (PARSER, p.fn.lineno),
                            'the action tests the truthiness of %r, which can be %s: that value is treated as absent'
                            % (tv, ' or '.join(lossy)))
-    chk.floor('C02.R1', 300 if only_lhs is None else 40, 'production alternatives')
+    chk.floor(rule, 300 if only_lhs is None else 40, 'production alternatives')
     chk.note('%d distinct (function, alternative) pairs evaluated' % n_alt)
 
 
@@ -182,8 +186,8 @@ def present_test(t, k):
                                                   t.t.i == k)
 
 
-def r2_list_idiom(chk):
-    chk.doc('C02.R2', 'a left-recursive list production `X : X [sep] item | item` yields <accumulated list> + [item] '
+def r2_list_idiom(chk, rule='C02.R2', only_lhs=None):
+    chk.doc(rule, 'a left-recursive list production `X : X [sep] item | item` yields <accumulated list> + [item] '
                       '(optionally inside one constant tag) and [item]; a stray separator alternative returns the '
                       'list unchanged; the filtering variant (items that yield None are skipped) must keep the list '
                       'and still append every later item')
@@ -192,6 +196,8 @@ def r2_list_idiom(chk):
     for dname, gs in all_shapes(chk):
         for p in gs.d.prods:
             if not p.rhs or p.rhs[0] != p.lhs or p.lhs in SILENT:
+                continue
+            if only_lhs is not None and p.lhs not in only_lhs:
                 continue
             key = (p.owner, p.fn.name, p.rhs)
             if key in seen:
@@ -233,7 +239,7 @@ def r2_list_idiom(chk):
                     ok = True  # filtering variant
                 else:
                     detail = 'list production yields %s: items are lost, duplicated or reordered' % repr(term)[:110]
-            chk.ob('C02.R2', tag, ok, '%s:%s' % (PARSER, p.fn.lineno), '' if ok else detail)
+            chk.ob(rule, tag, ok, '%s:%s' % (PARSER, p.fn.lineno), '' if ok else detail)
             # base alternative(s)
             for q in gs.by_lhs[p.lhs]:
                 if q.rhs and q.rhs[0] == p.lhs:
@@ -257,9 +263,9 @@ def r2_list_idiom(chk):
                 good = tagged_single(t) or (isinstance(t, Cond) and tagged_single(t.a) and (
                     t.b is NONE or (isinstance(t.b, Const) and t.b.v is None) or isinstance(t.b, Sym))) or (
                     isinstance(t, Cond) and isinstance(t.a, Cond) and tagged_single(t.a.a))
-                chk.ob('C02.R2', '%s.%s[%s]/base' % (q.owner, q.fn.name, ' '.join(q.rhs)), good,
+                chk.ob(rule, '%s.%s[%s]/base' % (q.owner, q.fn.name, ' '.join(q.rhs)), good,
                        '%s:%s' % (PARSER, q.fn.lineno), 'base case of the list yields %s' % repr(t)[:100])
-    chk.floor('C02.R2', 24, 'left-recursive list productions')
+    chk.floor(rule, 24 if only_lhs is None else 4, 'left-recursive list productions')
 
 
 def r2b_operand_shapes(chk, rule='C02.R2b'):
@@ -460,11 +466,11 @@ def _name(e):
     return e.id if isinstance(e, ast.Name) else None
 
 
-def r4_token_values(chk):
+def r4_token_values(chk, rule='C02.R4'):
     model = chk.model
     lm = lexer_model(chk)
     mod = model.mod(LEXER)
-    chk.doc('C02.R4', 'Text / ExtUTCTime strip exactly the first and last character of the quoted string; among the '
+    chk.doc(rule, 'Text / ExtUTCTime strip exactly the first and last character of the quoted string; among the '
                       'lexer rules only t_NUMBER assigns t.value (to int(t.value)); HEX/BIN strings, identifiers and '
                       'quoted strings are passed through verbatim')
     for dname, gs in all_shapes(chk)[:1]:
@@ -472,7 +478,7 @@ def r4_token_values(chk):
             if p.lhs in ('Text', 'ExtUTCTime'):
                 t = gs.terms[p]
                 ok = isinstance(t, Slc) and isinstance(t.t, Sym) and t.lo == 1 and t.hi == -1
-                chk.ob('C02.R4', '%s.%s' % (p.owner, p.fn.name), ok, '%s:%s' % (PARSER, p.fn.lineno),
+                chk.ob(rule, '%s.%s' % (p.owner, p.fn.name), ok, '%s:%s' % (PARSER, p.fn.lineno),
                        'quoted text becomes %s instead of p[1][1:-1]' % repr(t))
     n = 0
     for s in sorted(lm.states):
@@ -490,9 +496,9 @@ def r4_token_values(chk):
                     if norm(t) == '%s.value' % tok:
                         n += 1
                         ok = r.name == 't_NUMBER' and isinstance(x, ast.Assign) and norm(x.value) == 'int(%s.value)' % tok
-                        chk.ob('C02.R4', 'rule %s/value-rewrite' % r.name, ok, where(mod, x),
+                        chk.ob(rule, 'rule %s/value-rewrite' % r.name, ok, where(mod, x),
                                'the token text is rewritten (%s): the tree no longer shows what was written' % norm(x)[:60])
-    chk.floor('C02.R4', 3, 'Text, ExtUTCTime, t_NUMBER')
+    chk.floor(rule, 3, 'Text, ExtUTCTime, t_NUMBER')
 
 
 def r5_layout(chk):
